@@ -201,7 +201,7 @@ def counter_in_apply_body(ctx, r, root, val, where):
     from .. import balance
     from ..prov import root_local
     prog = ctx.prog
-    roles = ctx.role_bodies()
+    roles = ctx.apply_family()
     locs = {}
     for l in val:
         if l[0] == "const":
@@ -264,13 +264,24 @@ def apply_denotes(ctx, r):
     A = ctx.anchors
     item = A.get("ITEM")
     item_fields = [f["name"] for f in prog.adts[item]["variants"][0]["fields"]] if item in prog.adts else []
-    roles = set(ctx.role_bodies().keys())
-    for p in roles:
-        b = prog.bodies[p]
+    cus_by_key = {}
+    for cu0 in ctx.world.container_uses:
+        if ANCHOR_FIELDS.get(cu0.field) == "KEYMAP" and cu0.mutable:
+            cus_by_key.setdefault(cu0.site.key(), []).append(cu0)
+    for p in ctx.apply_roots():
+        # judged on the flat view of the apply function: the per-variant work may sit in helpers that get the op's
+        # fields as parameters
+        b = ctx.apply_view(p)
         sl = Slicer(ctx.world, b)
-        for cu in ctx.world.container_uses:
-            if cu.site.body.path != p or ANCHOR_FIELDS.get(cu.field) != "KEYMAP" or not cu.mutable:
-                continue
+        uses = []
+        for fs in b.sites():
+            for cu0 in cus_by_key.get(fs.key(), ()):
+                uses.append((cu0, fs))
+        for (cu0, fs) in uses:
+            class _CU(object):      # the container use, seen at its site in the view
+                pass
+            cu = _CU()
+            cu.method, cu.site, cu.field = cu0.method, fs, cu0.field
             args = cu.site.term["args"]
             if cu.method == "insert":
                 k = sl.leaves_of_operand(args[1])
@@ -301,7 +312,7 @@ def apply_denotes(ctx, r):
                 h = max(hdrs, key=lambda s: len(b.dominators()[s.bb]))
                 loop = cfgutil.natural_loop(b, h.bb)
                 exits = []
-                rf = ctx.must(None).rf(b)
+                rf = ctx.rf(b)
                 for x in loop:
                     for s2 in b.succs(x):
                         if s2 not in loop:
@@ -313,6 +324,14 @@ def apply_denotes(ctx, r):
                     # error propagation: leads to an Err return
                     blocks = cfgutil.reach(b, s2)
                     if any(rf.forwarded.get(y) == "err" for y in blocks) and not any(rf.forwarded.get(y) == "ok" for y in blocks - {None}):
+                        continue
+                    # ... possibly through the return of an inlined helper: every way from here to a return builds an
+                    # Err value first
+                    errb = [y for y in blocks if term_path(b.blocks[y]["term"]) == "std::ops::FromResidual::from_residual"
+                            or any(st_["k"] == "assign" and st_["rv"]["k"] == "agg" and st_["rv"].get("def") == "std::result::Result"
+                                   and st_["rv"].get("vn") == "Err" for st_ in b.stmts(y))]
+                    rest = cfgutil.reach(b, s2, removed_blocks=errb)
+                    if errb and not any(b.blocks[y]["term"]["k"] == "return" for y in rest):
                         continue
                     bad.append((x, s2))
                 r.check(not bad, "remove-loop-exits", b,
@@ -394,8 +413,11 @@ def reads_resolve(ctx, r):
     for p in reach:
         b = prog.bodies[p]
         cbs = [s for s in b.calls() if s.path in FN_TRAIT_CALLS and s.callee.get("rk") != "virtual"]
-        gets = [s for s in b.calls() if any(e[0] == "CONT" and ANCHOR_FIELDS.get(e[1]) == "KEYMAP" and e[2] == "get"
-                                           for e in ctx.may.site_events(s)) and prog.local_target(s) is not None]
+        # the call that performs the lookup: its target is the accessor that reads the key map itself (not a wrapper
+        # that merely hands the key on to the lookup body)
+        gets = [s for s in b.calls() if prog.local_target(s) is not None and any(
+            cu.site.body.path == prog.local_target(s).path and ANCHOR_FIELDS.get(cu.field) == "KEYMAP" and
+            cu.method == "get" for cu in ctx.world.container_uses)]
         if gets and (cbs or any(prog.closure_param_bindings(b.path))):
             lookups.append((b, gets))
     for (b, gets) in lookups:
